@@ -21,6 +21,7 @@ fn main() {
             "ovl" => Box::new(streams::ovl::OvlExec::default()),
             "net" => Box::new(streams::net::NetExec::default()),
             "filt" | "loop" => Box::new(streams::filt::FiltExec::default()),
+            "portloop" => Box::new(streams::portloop::PortLoopExec),
             _ => panic!("unknown stream"),
         };
         for line in std::io::BufReader::new(file).lines() {
@@ -69,6 +70,7 @@ fn main() {
         "ovl" => streams::ovl::generate(&mut out, &rng, thorough),
         "filt" => streams::gen_filt::generate(&mut out, &rng, thorough),
         "loop" => streams::gen_loop::generate(&mut out, &rng, thorough),
+        "portloop" => streams::portloop::generate(&mut out, &rng, thorough),
         "net" => streams::net::generate(&mut out, &rng, thorough),
         "cmp" => streams::gen_bmca::generate_cmp(&mut out, &rng, thorough),
         "fml" => streams::gen_fml::generate(&mut out, &rng, thorough),
